@@ -450,6 +450,8 @@ class Interp:
             return x
         if isinstance(x, Obj) and x.strval is not None:
             return x.strval
+        if isinstance(x, (int, float, bytes, bool)) or x is None:
+            return str(x)
         return "<str>"
 
     def _type(self, i, a, k):
@@ -557,6 +559,23 @@ class Interp:
                     return a[2]
                 raise
         return self.getattr(a[0], a[1])
+
+    def format_value(self, x, spec, conversion=-1):
+        """Text of one formatted value, or None when it is not concrete."""
+        if isinstance(x, Obj) and x.strval is not None:
+            x = x.strval
+        if isinstance(x, (str, int, float, bytes, bool)) or x is None:
+            try:
+                if conversion == ord("r"):
+                    x = repr(x)
+                elif conversion == ord("s"):
+                    x = str(x)
+                elif conversion == ord("a"):
+                    x = ascii(x)
+                return format(x, spec)
+            except (ValueError, TypeError):
+                return None
+        return None
 
     def _sorted(self, i, a, k):
         xs = self._as_list(a[0])
@@ -771,6 +790,10 @@ class Interp:
                 return Native("date", lambda i, a, k, o=o: o.with_(kind="date", zone=None))
             if name == "astimezone":
                 return Native("astimezone", lambda i, a, k, o=o: self._astimezone(o, a))
+            if name in ("timetz", "time") and o.is_datetime:
+                kind = "naive" if name == "time" or o.kind == "naive" else \
+                    ("utc" if o.kind == "utc" else "zoned")
+                return Native(name, lambda i, a, k, kind=kind: TimeVal(kind))
             if name in ("year", "month", "day"):
                 return ("field", name)
             if name in ("hour", "minute", "second"):
@@ -783,9 +806,17 @@ class Interp:
         if isinstance(o, TD):
             self.ops_seen.add(f"timedelta.{name}")
             if name == "seconds":
+                if o.secs is not None:
+                    return o.secs % 86400
                 return 0 if o.seconds_zero else 1
+            if name == "microseconds" and o.secs is not None:
+                return 0
             if name == "days":
+                if o.secs is not None:
+                    return o.secs // 86400
                 raise Unsupported("timedelta.days of a symbolic duration")
+            if name == "total_seconds" and o.secs is not None:
+                return Native("total_seconds", lambda i, a, k, o=o: float(o.secs))
             raise Unsupported(f"attribute {name} of a timedelta")
         if isinstance(o, RegexVal):
             return self._regex_method(o, name)
@@ -934,14 +965,30 @@ class Interp:
             return Native(name, lambda i, a, k: getattr(o, name)(*a))
         if name == "format":
             def fmt(i, a, k):
-                vals = [x.strval if isinstance(x, Obj) and x.strval is not None else x for x in a]
-                if all(isinstance(x, (str, int, float, bytes, type(None))) for x in vals) and \
-                        all(isinstance(x, (str, int, float, bytes, type(None))) for x in k.values()):
-                    try:
-                        return o.format(*vals, **k)
-                    except (IndexError, KeyError, ValueError) as e:
-                        raise AbsRaise(type(e).__name__, str(e))
-                return "<formatted>"
+                import string
+                out = []
+                auto = 0
+                try:
+                    for lit, fld, spec, conv in string.Formatter().parse(o):
+                        out.append(lit)
+                        if fld is None:
+                            continue
+                        if fld == "":
+                            val = a[auto]
+                            auto += 1
+                        elif fld.isdigit():
+                            val = a[int(fld)]
+                        elif fld in k:
+                            val = k[fld]
+                        else:
+                            return "<formatted>"
+                        got = self.format_value(val, spec or "", ord(conv) if conv else -1)
+                        if got is None:
+                            return "<formatted>"
+                        out.append(got)
+                except (IndexError, KeyError, ValueError) as e:
+                    raise AbsRaise(type(e).__name__, str(e))
+                return "".join(out)
             return Native("format", fmt)
         if name == "join":
             def join(i, a, k):
@@ -1318,6 +1365,10 @@ class Interp:
 
     # ---- arithmetic -------------------------------------------------------
     def binop(self, op, a, b):
+        if isinstance(a, TD) and isinstance(b, TD) and a.secs is not None and b.secs is not None \
+                and isinstance(op, (ast.Add, ast.Sub)):
+            sc = a.secs + b.secs if isinstance(op, ast.Add) else a.secs - b.secs
+            return TD(secs=sc, term={"second": sc} if sc else {})
         if isinstance(a, (set, frozenset)) and isinstance(b, (set, frozenset)):
             if isinstance(op, ast.Sub):
                 return a - b
@@ -1383,6 +1434,13 @@ class Interp:
             if isinstance(a, (int, float)) and isinstance(b, (int, float)):
                 return a * b
         if isinstance(op, ast.Mod) and isinstance(a, str):
+            args = b if isinstance(b, tuple) else (b,)
+            args = tuple(x.strval if isinstance(x, Obj) and x.strval is not None else x for x in args)
+            if all(isinstance(x, (str, int, float, bytes)) for x in args) and "<" not in a[:1]:
+                try:
+                    return a % args
+                except (TypeError, ValueError) as e:
+                    raise AbsRaise(type(e).__name__, str(e))
             return "<formatted>"
         # concrete Python scalars and strings: Python's own semantics
         ua = a.strval if isinstance(a, Obj) and a.strval is not None else a
@@ -1465,13 +1523,46 @@ class Interp:
                 src = getattr(self, "_field_src", None)
                 if src is not None:
                     return src.with_(kind="naive", zone=None)
-            if args and all(isinstance(a, int) and not isinstance(a, bool) for a in args) and not kwargs:
+            if args and all(isinstance(a, int) and not isinstance(a, bool) for a in args) \
+                    and set(kwargs) <= {"tzinfo"}:
+                import datetime as _dt
+                try:
+                    _dt.datetime(*args)
+                except ValueError as e:
+                    raise AbsRaise("ValueError", str(e))
+                except TypeError as e:
+                    raise AbsRaise("TypeError", str(e))
+                tz = kwargs.get("tzinfo")
+                if isinstance(tz, TZ):
+                    return DT("utc" if tz.kind == "utc" else "zoned", None, None,
+                              None if tz.kind == "utc" else tz.key_, tag="from-fields")
+                if tz is not None:
+                    raise Unsupported(f"datetime(..., tzinfo={tz!r})")
                 return DT("naive", None, None, None, tag="from-fields")
             raise Unsupported("datetime(...) constructor")
         if t.name == "date":
             if args and all(isinstance(a, int) and not isinstance(a, bool) for a in args):
+                import datetime as _dt
+                try:
+                    _dt.date(*args)
+                except ValueError as e:
+                    raise AbsRaise("ValueError", str(e))
+                except TypeError as e:
+                    raise AbsRaise("TypeError", str(e))
                 return DT("date", None, None, None, tag="from-fields")
             raise Unsupported("date(...) constructor")
+        if t.name == "time":
+            if all(isinstance(a, int) and not isinstance(a, bool) for a in args):
+                import datetime as _dt
+                try:
+                    _dt.time(*args)
+                except ValueError as e:
+                    raise AbsRaise("ValueError", str(e))
+                except TypeError as e:
+                    raise AbsRaise("TypeError", str(e))
+                tz = kwargs.get("tzinfo")
+                return TimeVal("naive" if tz is None else "utc")
+            raise Unsupported("time(...) constructor")
         if t.name in BUILTIN_EXC:
             o = Obj(None)
             o.attrs["__exc__"] = t.name
@@ -1838,20 +1929,11 @@ class Interp:
                             spec = sp
                         else:
                             concrete = False
-                    if isinstance(x, (str, int, float, bytes)) and not isinstance(x, bool) or x is None \
-                            or isinstance(x, bool):
-                        try:
-                            if v.conversion == ord("r"):
-                                x = repr(x)
-                            elif v.conversion == ord("s"):
-                                x = str(x)
-                            elif v.conversion == ord("a"):
-                                x = ascii(x)
-                            parts.append(format(x, spec))
-                        except (ValueError, TypeError):
-                            concrete = False
-                    else:
+                    got = self.format_value(x, spec, v.conversion)
+                    if got is None:
                         concrete = False
+                    else:
+                        parts.append(got)
                 elif isinstance(v, ast.Constant):
                     parts.append(str(v.value))
             return "".join(parts) if concrete else "<fstring>"
